@@ -189,8 +189,10 @@ func (c08) Gen(r *world.Rng, tier string, n int) interface{} {
 			sc.Host = append(sc.Host, HostOp{Op: "step", N: r.Range(1, 5)})
 		case x < 76:
 			sc.Host = append(sc.Host, HostOp{Op: "stale"})
-		case x < 80:
+		case x < 78:
 			sc.Host = append(sc.Host, HostOp{Op: "swap", N: r.Range(1, 2)})
+		case x < 80:
+			sc.Host = append(sc.Host, HostOp{Op: "poke", N: r.Pick(0x00, 0x3c, 0x76, 0xc9, 0x04)})
 		case x < 92:
 			op := HostOp{Op: "bp"}
 			switch r.Intn(5) {
@@ -220,6 +222,10 @@ func (c08) Gen(r *world.Rng, tier string, n int) interface{} {
 		}
 	}
 	sc.Host = append(sc.Host, HostOp{Op: "run"}, HostOp{Op: "run"})
+	if r.Chance(1, 3) {
+		// the program is parked on its HALT by now: the host replaces that very byte and runs again
+		sc.Host = append(sc.Host, HostOp{Op: "poke", N: r.Pick(0x00, 0x3c, 0x04, 0x18)}, HostOp{Op: "run"}, HostOp{Op: "run"})
+	}
 	return sc
 }
 
@@ -412,6 +418,21 @@ func (c08) Exec(sci interface{}, env *Env) *Violation {
 				rn.RaiseNow(sc.Events[op.N], "host")
 				parked = false
 			}
+			continue
+		case "poke":
+			// DMA / program reload between two calls: the byte at the current PC or at a given address
+			a := tw.CPU.PC
+			if len(op.Add) > 0 {
+				a = op.Add[0]
+			}
+			for _, mm := range []*world.Machine{tw, rn} {
+				mm.Bus.Mem[a] = uint8(op.N)
+				if dm, ok := mm.CPU.Memory.(z80.DumbMemory); ok {
+					dm[a] = uint8(op.N)
+				}
+			}
+			env.Fire("host-pokes-memory-between-calls")
+			parked = false
 			continue
 		case "swap":
 			// the host replaces cpu.Memory / cpu.IO by other values over the same contents (N=2: on a struct copy of the CPU)
